@@ -121,7 +121,20 @@ class Rat:
             raise Undefined("zero denominator")
         if n.is_zero():
             d = Poly.const(1)
-        # cancel a common monomial and make the denominator's content 1
+        elif not d.is_const():
+            # cancel the monomial common to every term of numerator and denominator
+            monos = list(n.t) + list(d.t)
+            common = dict(monos[0])
+            for m in monos[1:]:
+                dm = dict(m)
+                common = {q: min(e, dm.get(q, 0)) for q, e in common.items() if dm.get(q, 0) > 0}
+                if not common:
+                    break
+            if common:
+                def strip(p_: Poly) -> Poly:
+                    return Poly({tuple((q, e - common.get(q, 0)) for q, e in m if e - common.get(q, 0) > 0): c for m, c in p_.t.items()})
+                n, d = strip(n), strip(d)
+        # make a constant denominator 1
         if d.is_const():
             c = d.const_value()
             n = Poly({m: v / c for m, v in n.t.items()})
@@ -217,9 +230,10 @@ FLOAT_FN: dict[str, Callable[..., float]] = {
 class Algebra:
     """Context: registry of function symbols (shared by the two sides of a comparison) and a sign oracle for abs()."""
 
-    def __init__(self, sign_of: Callable[[Rat], str | None] | None = None):
+    def __init__(self, sign_of: Callable[[Rat], str | None] | None = None, square_root: Callable[[Rat], Rat | None] | None = None):
         self.fns: list[Fn] = []
         self.sign_of = sign_of or (lambda r: None)
+        self.square_root = square_root or (lambda r: None)  # exact root of a perfect square, when the context can factor it
 
     def fn(self, name: str, *args: Rat) -> Rat:
         args = tuple(self.reduce(a) for a in args)
@@ -227,6 +241,18 @@ class Algebra:
             return self._is_fn(args[0], "log").args[0]  # type: ignore[union-attr]
         if name == "log" and self._is_fn(args[0], "exp") is not None:
             return self._is_fn(args[0], "exp").args[0]  # type: ignore[union-attr]
+        if name == "exp":
+            for f in self.fns:
+                if f.name == "log" and args[0].equals(Rat.sym(f)):
+                    return f.args[0]
+        if name == "log":
+            for f in self.fns:
+                if f.name == "exp" and args[0].equals(Rat.sym(f)):
+                    return f.args[0]
+        if name == "sqrt":
+            root = self.square_root(args[0])
+            if root is not None:
+                return root
         if name == "abs":
             s = self.sign_of(args[0])
             if s in ("pos", "zero"):
